@@ -47,7 +47,7 @@ theorem KInv_heap {s s' : St} (hl : s'.lookup = s.lookup) (hlen : s.heap.length 
   · intro u st hu hc; rw [hl] at hu
     exact node_filled_mono hm _ (h.bound u st hu) (h.fill u st hu hc)
 
-theorem KInv_HS {s s' : St} (hl : s'.lookup = s.lookup) (hs : HS s s') (h : KInv s) : KInv s' :=
+theorem KInv_HS {s s' : St} (h : KInv s) (hs : HS s s') (hl : s'.lookup = s.lookup) : KInv s' :=
   KInv_heap hl hs.1 hs.2.1 h
 
 /-- (S2) writing an entry -/
@@ -138,7 +138,7 @@ theorem extract_KD (s : St) (el : Nat) (hk : KInv s) (hd : DInv s)
   | none => rw [extract_none s el hl]; exact ⟨hk, hd, fun n => Fr.refl n s⟩
   | some pos =>
     rw [extract_eq' s el pos hl]
-    have hk1 : KInv (exNT s pos) := KInv_HS (exNT_lookup s pos) (HS_exNT s pos) hk
+    have hk1 : KInv (exNT s pos) := KInv_HS hk (HS_exNT s pos) (exNT_lookup s pos)
     have hd1 : DInv (exNT s pos) := by unfold DInv; rw [exNT_diagrams]; exact hd
     have hl1 : aget (exNT s pos).lookup el = some pos := by rw [exNT_lookup]; exact hl
     obtain ⟨a, b, c⟩ := exFin_KD (exNT s pos) el pos _ hk1 hd1
@@ -188,5 +188,179 @@ theorem KInv_setKw (s : St) (ret : Nat) (kw : Kw) (h : KInv s)
     rw [node_of_get e]
     rw [node_of_get ha] at this
     exact this
+
+/-! ### the loop over the children -/
+
+structure LK (s0 sk : St) (ret : Nat) : Prop where
+  k : KInv sk
+  d : DInv sk
+  fr : Fr (ret + 1) s0 sk
+  hlt : ret < sk.heap.length
+
+/-- in the state after `register`, the entries pointing to `ret` are incomplete -/
+def H0 (s0 : St) (ret : Nat) : Prop :=
+  ∀ u st, aget s0.lookup u = some st → st.converted = ret → st.complete = false
+
+theorem LK_incomplete {s0 sk : St} {ret : Nat} (h : LK s0 sk ret) (h0 : H0 s0 ret) :
+    ∀ u st, aget sk.lookup u = some st → st.converted = ret → st.complete = false := by
+  intro u st hu hc
+  obtain ⟨st0, e1, e2, e3⟩ := h.fr u st hu (by omega)
+  have := h0 u st0 e1 (by omega)
+  cases hcc : st.complete with
+  | false => rfl
+  | true => rw [e3 hcc] at this; exact absurd this (by simp)
+
+theorem LK_setKw {s0 sk : St} {ret : Nat} (h : LK s0 sk ret) (h0 : H0 s0 ret) (kw : Kw) :
+    LK s0 (sk.setKw ret kw) ret :=
+  ⟨KInv_setKw sk ret kw h.k (LK_incomplete h h0), h.d, h.fr.trans (Fr_lookup_eq rfl), by rw [setKw_len]; exact h.hlt⟩
+
+abbrev RecKD (g : Grammar) (rec : Rec) : Prop :=
+  ∀ c p i h s r s', c < g.length → rec c p i h s = some (r, s') →
+    HS s s' ∧ (KInv s → DInv s → KInv s' ∧ DInv s' ∧ Fr s.heap.length s s')
+
+theorem stepKid_KD (g : Grammar) (rec : Rec) (s0 : St) (ret : Nat) (hrec : RecKD g rec) (h0 : H0 s0 ret)
+    (c i : Nat) (sk : St) (i' : Nat) (sk' : St) (hc : c < g.length)
+    (h : stepKid rec ret c i sk = some (i', sk')) (hL : LK s0 sk ret) : LK s0 sk' ret := by
+  unfold stepKid at h
+  have hL1 : LK s0 (addPlaceholder sk ret i) ret := by
+    unfold addPlaceholder
+    split
+    · exact LK_setKw hL h0 _
+    · exact hL
+  split at h
+  · exact absurd h (by simp)
+  · rename_i item s2 hr
+    obtain ⟨hHS, hkd⟩ := hrec _ _ _ _ _ _ _ hc hr
+    obtain ⟨a, b, cfr⟩ := hkd hL1.k hL1.d
+    have hL2 : LK s0 s2 ret :=
+      ⟨a, b, hL1.fr.trans (cfr.weaken (by have := hL1.hlt; omega)), by have := hL1.hlt; have := hHS.1; omega⟩
+    split at h <;> simp only [Option.some.injEq, Prod.mk.injEq] at h <;> obtain ⟨_, rfl⟩ := h
+    · exact LK_setKw hL2 h0 _
+    · exact LK_setKw hL2 h0 _
+    · exact hL2
+    · exact LK_setKw hL2 h0 _
+    · exact hL2
+
+theorem loopKids_KD (g : Grammar) (rec : Rec) (s0 : St) (ret : Nat) (hrec : RecKD g rec) (h0 : H0 s0 ret) :
+    ∀ (kids : List Nat) (i : Nat) (sk sk' : St), (∀ c ∈ kids, c < g.length) →
+      loopKids rec ret kids i sk = some sk' → LK s0 sk ret → LK s0 sk' ret := by
+  intro kids
+  induction kids with
+  | nil => intro i sk sk' _ h hL; simp only [loopKids, Option.some.injEq] at h; exact h ▸ hL
+  | cons c cs ih =>
+    intro i sk sk' hin h hL
+    unfold loopKids at h
+    split at h
+    · exact absurd h (by simp)
+    · rename_i i1 s1 hs
+      exact ih i1 s1 sk' (fun c' hc' => hin c' (List.mem_cons_of_mem _ hc')) h
+        (stepKid_KD g rec s0 ret hrec h0 c i sk i1 s1 (hin c (List.mem_cons_self ..)) hs hL)
+
+/-! ### register / post / annotate -/
+
+theorem register_KD (g : Grammar) (s : St) (el : Nat) (n : Node) (parent : Option Nat) (index : Nat)
+    (pn : PNode) (hk : KInv s) (hd : DInv s) :
+    KInv (register g s el n parent index pn).2 ∧ DInv (register g s el n parent index pn).2 ∧
+      Fr s.heap.length s (register g s el n parent index pn).2 ∧
+      H0 (register g s el n parent index pn).2 s.heap.length := by
+  let es : EState := { converted := s.heap.length, parent := parent, parentIndex := index, number := s.index + 1 }
+  have hkA : KInv (s.alloc pn).2 := KInv_heap (s := s) rfl (by simp [St.alloc]) (Mono_alloc s pn) hk
+  have hk2 : KInv (setL (s.alloc pn).2 (s.index + 1) el es) :=
+    KInv_setL _ _ el es hkA (by simp [St.alloc, es]) (fun h => absurd h (by simp [es]))
+  have hd2 : DInv (setL (s.alloc pn).2 (s.index + 1) el es) := hd
+  have hf2 : Fr s.heap.length s (setL (s.alloc pn).2 (s.index + 1) el es) :=
+    (Fr_lookup_eq (s' := (s.alloc pn).2) rfl).trans
+      (Fr_setL _ _ _ el es (fun h => absurd h (by simp [es])))
+  have h02 : H0 (setL (s.alloc pn).2 (s.index + 1) el es) s.heap.length := by
+    intro u st hu hc
+    by_cases hu' : u = el
+    · subst hu'
+      simp only [setL, aget_aset_same, Option.some.injEq] at hu
+      subst hu; rfl
+    · simp only [setL, aget_aset_ne _ _ _ _ hu'] at hu
+      have := hk.bound u st hu
+      omega
+  unfold register
+  simp only
+  split
+  · obtain ⟨a, b, c⟩ := mark_KD g (setL (s.alloc pn).2 (s.index + 1) el es) el n.custom hk2 hd2
+    refine ⟨a, b, hf2.trans (c _), ?_⟩
+    intro u st hu hc
+    obtain ⟨st0, e1, e2, e3⟩ := c (s.heap.length + 1) u st hu (by omega)
+    have := h02 u st0 e1 (by omega)
+    cases hcc : st.complete with
+    | false => rfl
+    | true => rw [e3 hcc] at this; exact absurd this (by simp)
+  · exact ⟨hk2, hd2, hf2, h02⟩
+
+theorem setComplete_KD (sP : St) (el m : Nat) (hk1 : KInv sP) (hd1 : DInv sP)
+    (hfill1 : ∀ st, aget sP.lookup el = some st → (sP.node st.converted).kw.filled = true)
+    (hL21 : ∀ st, aget sP.lookup el = some st → m ≤ st.converted) :
+    KInv (setComplete sP el) ∧ DInv (setComplete sP el) ∧ Fr m sP (setComplete sP el) ∧
+      (∀ st, aget (setComplete sP el).lookup el = some st → st.complete = true) := by
+  unfold setComplete
+  cases hl : aget sP.lookup el with
+  | none =>
+    simp only
+    exact ⟨hk1, hd1, Fr.refl m sP, fun st hst => by rw [hl] at hst; exact absurd hst (by simp)⟩
+  | some st =>
+    simp only
+    refine ⟨KInv_setL sP sP.index el { st with complete := true } hk1 (hk1.bound el st hl) (fun _ => hfill1 st hl),
+      hd1, Fr_setL m sP sP.index el _ (fun hlt => ?_), ?_⟩
+    · have := hL21 st hl
+      exact absurd hlt (by simp only; omega)
+    · intro st2 hst2
+      have : aget (aset sP.lookup el { st with complete := true }) el = some st2 := hst2
+      rw [aget_aset_same] at this
+      simp only [Option.some.injEq] at this
+      subst this; rfl
+
+theorem post_KD (el : Nat) (n : Node) (hint : Option String) (ret : Nat) (s2 : St) (m : Nat)
+    (hk : KInv s2) (hd : DInv s2) (hnew : NewFilled m s2)
+    (hL2 : ∀ st, aget s2.lookup el = some st → m ≤ st.converted) :
+    KInv (post el n hint ret s2).2 ∧ DInv (post el n hint ret s2).2 ∧ Fr m s2 (post el n hint ret s2).2 := by
+  have hfill : ∀ st, aget s2.lookup el = some st → (s2.node st.converted).kw.filled = true := by
+    intro st hst
+    have hb := hk.bound el st hst
+    have ha := List.getElem?_eq_getElem hb
+    rw [node_of_get ha]
+    exact hnew _ _ (hL2 st hst) ha
+  have hHS1 : HS s2 (post1 n hint ret s2).2 := by
+    unfold post1
+    split
+    · exact HS_alloc s2 _ rfl
+    · exact HS.refl s2
+  have hl1 : (post1 n hint ret s2).2.lookup = s2.lookup := by
+    unfold post1; split <;> rfl
+  have hd1e : (post1 n hint ret s2).2.diagrams = s2.diagrams := by
+    unfold post1; split <;> rfl
+  have hk1 : KInv (post1 n hint ret s2).2 := KInv_HS hk hHS1 hl1
+  have hd1 : DInv (post1 n hint ret s2).2 := by unfold DInv; rw [hd1e]; exact hd
+  have hfill1 : ∀ st, aget (post1 n hint ret s2).2.lookup el = some st →
+      ((post1 n hint ret s2).2.node st.converted).kw.filled = true := by
+    intro st hst
+    rw [hl1] at hst
+    exact node_filled_mono hHS1.2.1 _ (hk.bound el st hst) (hfill st hst)
+  have hL21 : ∀ st, aget (post1 n hint ret s2).2.lookup el = some st → m ≤ st.converted := by
+    intro st hst; rw [hl1] at hst; exact hL2 st hst
+  obtain ⟨c1, c2, c3, c4⟩ := setComplete_KD (post1 n hint ret s2).2 el m hk1 hd1 hfill1 hL21
+  have hfr0 : Fr m s2 (post1 n hint ret s2).2 := Fr_lookup_eq hl1
+  unfold post
+  simp only
+  split
+  · split
+    · obtain ⟨e1, e2, e3⟩ := extract_KD _ el c1 c2 (fun pos hp => c4 pos hp)
+      exact ⟨KInv_HS e1 (HS_newNT _ _) rfl, e2, hfr0.trans (c3.trans ((e3 m).trans (Fr_lookup_eq rfl)))⟩
+    · exact ⟨c1, c2, hfr0.trans c3⟩
+  · exact ⟨c1, c2, hfr0.trans c3⟩
+
+theorem annotate_KD (o : Opts) (n : Node) (r : Option Nat) (s : St) (hk : KInv s) (hd : DInv s) (m : Nat) :
+    KInv (annotate o n r s).2 ∧ DInv (annotate o n r s).2 ∧ Fr m s (annotate o n r s).2 := by
+  unfold annotate
+  split
+  · exact ⟨hk, hd, Fr.refl m s⟩
+  · split
+    · exact ⟨KInv_HS hk (HS_alloc s _ rfl) rfl, hd, Fr_lookup_eq rfl⟩
+    · exact ⟨hk, hd, Fr.refl m s⟩
 
 end PP.Diagram
